@@ -8,6 +8,7 @@ Regenerated from /repo on every run:
       Float.to_str_scientific   : work_digits, the renormalisation after a rounding carry, radix_position
       Float.to_str_fixed        : n_work and the rounding of values below one unit of the last decimal
       Float._scientific_notation: the exponent shown
+  * table dumper: the limit byte strings of Float.to_decimal(k), k < digits (see limit_tables).
 The translator refuses when one of these statements disappears or leaves the pure integer subset.
 """
 import ast
@@ -59,6 +60,57 @@ def digit_limit(m):
     return found[0]
 
 
+def limit_tables(repo):
+    """Table dumper: the (lim_bot, lim_top) byte strings Float.to_decimal(k) builds for k = 0 .. digits-1
+    (`from_int(10**(k-1))._just_under()`, `from_int(10**k)._just_under()`; k <= 0: 0 and just under 1),
+    computed by the repository's own from_int/_just_under.  The AST of to_decimal is checked to still have
+    that three-way branch."""
+    import importlib
+    import sys
+    m = Module(os.path.join(repo, SOURCES[1]))
+    fn = m.find('Float.to_decimal')
+    src = ast.unparse(fn)
+    for needle in ('if digits >= self.digits:', 'elif digits > 0:',
+                   'lim_bot = self.new().from_int(10 ** (digits - 1))._just_under()',
+                   'lim_top = self.new().from_int(10 ** digits)._just_under()',
+                   'lim_bot = self.new().from_int(0)', 'lim_top = self.new().from_int(1)._just_under()',
+                   'lim_bot = self.new().from_bytes(self._lim_bot)', 'lim_top = self.new().from_bytes(self._lim_top)'):
+        if needle not in src:
+            raise Refuse('Float.to_decimal: limit selection changed (%r not found)' % needle)
+    saved = {k: v for k, v in sys.modules.items() if k == 'pcbasic' or k.startswith('pcbasic.')}
+    for k in saved:
+        del sys.modules[k]
+    sys.path.insert(0, repo)
+    try:
+        numbers = importlib.import_module('pcbasic.basic.values.numbers')
+
+        class V(object):
+            error_handler = None
+        out = []
+        for cls, nm in ((numbers.Single, 'single'), (numbers.Double, 'double')):
+            x = cls(None, V())
+            rows = []
+            for k in range(0, cls.digits):
+                if k > 0:
+                    lb = x.new().from_int(10 ** (k - 1))._just_under()
+                    lt = x.new().from_int(10 ** k)._just_under()
+                else:
+                    lb = x.new().from_int(0)
+                    lt = x.new().from_int(1)._just_under()
+                rows.append('(%s, %s)' % (coq_bytes(lb.to_bytes()), coq_bytes(lt.to_bytes())))
+            out.append('Definition using_limits_%s : list (list Z * list Z) :=\n  [%s].' % (nm, ';\n   '.join(rows)))
+        return out
+    finally:
+        sys.path.remove(repo)
+        for k in [k for k in sys.modules if k == 'pcbasic' or k.startswith('pcbasic.')]:
+            del sys.modules[k]
+        sys.modules.update(saved)
+
+
+def coq_bytes(b):
+    return '[' + '; '.join(str(x) for x in bytearray(b)) + ']'
+
+
 def generate(repo):
     mf = Module(os.path.join(repo, SOURCES[0]))
     mn = Module(os.path.join(repo, SOURCES[1]))
@@ -72,6 +124,8 @@ def generate(repo):
     # precision of the two float types
     for cls, nm in (('Single', 'single'), ('Double', 'double')):
         out.append('Definition using_digits_%s : Z := %s.' % (nm, zlit(mn.const_value('%s.digits' % cls))))
+
+    out += limit_tables(repo)
 
     tf = UsingTranslator(mf, prefix='using_')
     tf.function('NumberField.format', coqname='using_sci_before',
